@@ -20,7 +20,35 @@ pub fn self_bin(profile_env: &str) -> Option<String> {
     std::env::var(profile_env).ok().filter(|s| !s.is_empty())
 }
 
-/// run `bin args...`, wait at most `timeout`
+/// CPU seconds (user + system) the process has consumed so far
+pub fn cpu_seconds(pid: u32) -> Option<f64> {
+    let s = std::fs::read_to_string(format!("/proc/{}/stat", pid)).ok()?;
+    // the command name may hold blanks: fields are counted after the closing parenthesis
+    let rest = &s[s.rfind(')')? + 1..];
+    let f: Vec<&str> = rest.split_whitespace().collect();
+    let ut: f64 = f.get(11)?.parse().ok()?;
+    let st: f64 = f.get(12)?.parse().ok()?;
+    let tck = unsafe { libc::sysconf(libc::_SC_CLK_TCK) } as f64;
+    Some((ut + st) / if tck > 0.0 { tck } else { 100.0 })
+}
+
+/// The hang verdict does not depend on the load of the machine: a child is a hang when it has
+/// CONSUMED `cpu_budget` of processor time, or when twenty times that has passed on the wall
+/// clock (a child that sleeps for ever consumes nothing).
+pub fn is_hang(pid: u32, start: Instant, cpu_budget: Duration) -> bool {
+    let wall = start.elapsed();
+    if wall > cpu_budget * 20 {
+        return true;
+    }
+    if wall > cpu_budget {
+        if let Some(c) = cpu_seconds(pid) {
+            return c > cpu_budget.as_secs_f64();
+        }
+    }
+    false
+}
+
+/// run `bin args...`; `timeout` is a budget of processor time (see `is_hang`)
 pub fn run_child(bin: &str, args: &[String], timeout: Duration) -> ChildResult {
     let mut child = match Command::new(bin)
         .args(args)
@@ -51,7 +79,7 @@ pub fn run_child(bin: &str, args: &[String], timeout: Duration) -> ChildResult {
                 };
             }
             Ok(None) => {
-                if start.elapsed() > timeout {
+                if is_hang(child.id(), start, timeout) {
                     let _ = child.kill();
                     let _ = child.wait();
                     return ChildResult::Hang;
